@@ -278,6 +278,10 @@ func (f *Frame) applyContract(con *Contract, callee *ssa.Function, sig *types.Si
 		}
 		f.guard(st, goal)
 	}
+	// panics_unless: a run-time check inside the callee; the call only returns if it held
+	for _, c := range con.PanicsUnless {
+		f.mustHold(st, f.evalClause(env, c, con), "callee-check:"+lastName(con.Name))
+	}
 	pre := st.clone()
 	preAlloc := vc.get(st, "alloc")
 	// havoc modifies
